@@ -313,11 +313,14 @@ impl HandshakeState {
         if byte_index + payload.len() + TAGLEN > message.len() {
             return Err(Error::Input);
         }
-        byte_index +=
-            self.symmetricstate.encrypt_and_mix_hash(payload, &mut message[byte_index..])?;
-        if byte_index > MAXMSGLEN {
+        // Reject an oversized message *before* the payload is encrypted: a retry of this write
+        // must never encrypt different data under the key and nonce used here.
+        let tag_len = if self.symmetricstate.has_key() { TAGLEN } else { 0 };
+        if byte_index + payload.len() + tag_len > MAXMSGLEN {
             return Err(Error::Input);
         }
+        byte_index +=
+            self.symmetricstate.encrypt_and_mix_hash(payload, &mut message[byte_index..])?;
         if self.pattern_position == (self.message_patterns.len() - 1) {
             self.symmetricstate.split(&mut self.cipherstates.0, &mut self.cipherstates.1);
         }
